@@ -1,7 +1,7 @@
 """C12 — Fq2 arithmetic is arithmetic in Fq[u]/(u²+2) (structural clauses)."""
 from core import report
 from core.sm9 import Repo
-from . import shared, field, conv2, mono
+from . import shared, field, conv2, mono, support
 
 
 def run(ctx):
@@ -13,7 +13,7 @@ def run(ctx):
     rules = [field.rule_tower_consts("C12", repo), field.rule_zero_cover("C12", repo), field.rule_tower_shapes("C12", repo), r_lay,
              conv2.rule_decoder_layout("C12", repo, ls, ["crate::fields::fq2::Fq2::from_slice", "crate::Fq2::from_slice"]), conv2.rule_conv_traits("C12", repo, ls), r_acc, conv2.rule_total("C12", repo, ls, list(spec), "dev", results),
              conv2.rule_is_even("C12", repo, ls), shared.rule_eq_derived(repo, ["crate::Fq2", "crate::fields::fq2::Fq2"]),
-             field.rule_ops_forward("C12", repo, ["crate::fields::fq2::Fq2", "crate::Fq2"]), field.rule_shortcuts("C12", repo, ["crate::fields::fq2::Fq2"]), mono.rule_shortcut_formulas("C12", repo, ["crate::fields::fq2::Fq2"])]
+             field.rule_ops_forward("C12", repo, ["crate::fields::fq2::Fq2", "crate::Fq2"]), field.rule_shortcuts("C12", repo, ["crate::fields::fq2::Fq2"]), mono.rule_shortcut_formulas("C12", repo, ["crate::fields::fq2::Fq2"]), support.rule_shortcut_supports("C12", repo, ["crate::fields::fq2::Fq2"])]
     return report.emit(
         "C12", ctx.tier, ctx.seed, rules, ctx.started,
         "Fq2::new(a,b) stores (real=a, imaginary=b) and the accessors read them back; 64-byte layout imaginary‖real in encoder and decoder; from_slice accepts exactly 64 bytes, "
